@@ -25,6 +25,12 @@ func CreateCookie(key, value string) *http.Cookie {
 	h.Add("Cookie", fmt.Sprintf("%s=%s", key, value))
 	rr := http.Request{Header: h}
 	c, _ := rr.Cookie(key) // nolint:errcheck
+	if c == nil {
+		// The pair is not a valid cookie as written (e.g. a space, quote or control
+		// character in the value): hand the raw value to the caller, AddCookie
+		// sanitizes it. Returning nil made `set req.http.Cookie:k = "a b";` crash.
+		c = &http.Cookie{Name: key, Value: value}
+	}
 	return c
 }
 
